@@ -7,6 +7,7 @@ import (
 	"flag"
 	"fmt"
 	"os"
+	"time"
 
 	"verifharness/internal/core"
 	"verifharness/internal/model"
@@ -41,7 +42,18 @@ func main() {
 	if *replay != "" {
 		os.Exit(doReplay(c, run, *replay))
 	}
-	run(c)
+	// overall watchdog: a runner that blocks outside the per-case watchdogs is itself a finding (something hangs)
+	limit := 20 * time.Minute
+	if *tier == "thorough" {
+		limit = 4 * time.Hour
+	}
+	done := make(chan struct{})
+	go func() { run(c); close(done) }()
+	select {
+	case <-done:
+	case <-time.After(limit):
+		c.Fail("hang@runner", fmt.Sprintf("the runner of %s did not finish within %v: some call into the library blocks", *prop, limit), "runner", core.Params{}, core.Obs{})
+	}
 	if err := c.Finish(*out); err != nil {
 		fmt.Fprintln(os.Stderr, err)
 		os.Exit(2)
